@@ -426,7 +426,7 @@ def check_added_transitions_push_pop(ctx, rep, f, rule='R-PDAFORM.form'):
     return len(adds)
 
 
-def check_find_transition(ctx, rep, f, rule='R-PDAFORM.witness'):
+def _check_find_transition_syntactic(ctx, rep, f, rule='R-PDAFORM.witness'):
     """the predecessor returned for a trace step must reach the WHOLE target configuration: state, and the complete stack
     that results from the move (comparing only the height or the top lets a predecessor with a different stack below the
     top through, and the trace then contains a step that is no move of the automaton)"""
@@ -635,3 +635,162 @@ def check_stack_step(ctx, rep, f_can, f_do, rule='R-MODEL.M9'):
         else:
             rep.holds(rule, f, 'def ' + f.name, 'stack step {} agrees with the definition on all {} cases of the finite model (u, v in epsilon / symbols, five stacks, two epsilon symbols)'.format(kind, cases))
     return n
+
+
+
+def check_find_transition(ctx, rep, f, rule='R-PDAFORM.witness'):
+    """pda_find_transition(P, R, a, target) returns a configuration of R from which ONE a-move of P leads to exactly the
+    target configuration (state and complete stack), or None when R has none.  Decided on a finite model with the
+    analyser's evaluator: a PDA with a push, a pop, a replace and a no-op move, candidate sets drawn from five
+    configurations, eleven targets, two input symbols; the expected predecessors are computed by the rule itself from the
+    definition of a move.  The function compares states, symbols and stacks for equality only.  Outside the evaluator's
+    fragment the syntactic form of the rule is used."""
+    import itertools
+    from ..miniexec import Interp, Obj, Raised
+    ps = [p.arg for p in f.pos_params]
+    if len(ps) != 4:
+        return _check_find_transition_syntactic(ctx, rep, f, rule)
+    eps = '_'
+    delta = {('p', 'a', eps): {('q', 'X')}, ('p', 'a', 'X'): {('q', eps), ('q', 'Y')}, ('p', 'b', eps): {('q', eps)}, ('q', 'a', 'Y'): {('p', 'Y')}}
+
+    def cfgs():
+        return [Obj('PDAState', q='p', stack=[]), Obj('PDAState', q='p', stack=['X']), Obj('PDAState', q='p', stack=['Y']), Obj('PDAState', q='p', stack=['Y', 'X']), Obj('PDAState', q='q', stack=['Y'])]
+
+    def moves(c, a):
+        out = []
+        for (p, a1, u0), tg in delta.items():
+            if p != c._f['q'] or a1 != a:
+                continue
+            for (q, v) in tg:
+                st = list(c._f['stack'])
+                if u0 != eps:
+                    if not st or st[-1] != u0:
+                        continue
+                    st = st[:-1]
+                if v != eps:
+                    st = st + [v]
+                out.append((q, st))
+        return out
+    targets = [('q', ['X']), ('q', []), ('q', ['Y']), ('q', ['Y', 'X']), ('q', ['X', 'X']), ('q', ['Y', 'Y']), ('q', ['Y', 'X', 'X']), ('p', ['Y']), ('p', ['X']), ('q', ['X', 'Y']), ('p', [])]
+    bad = None
+    runs = 0
+    try:
+        for k in (1, 2, 5):
+            for idx in itertools.combinations(range(5), k):
+                for (tq, ts) in targets:
+                    for a in ('a', 'b'):
+                        R = [c for i, c in enumerate(cfgs()) if i in idx]
+                        P = Obj('PDA', delta={k0: set(v0) for k0, v0 in delta.items()}, epsilon=eps, Q={'p', 'q'}, Sigma={'a', 'b'}, Gamma={'X', 'Y'}, q0='p', F={'q'})
+                        target = Obj('PDAState', q=tq, stack=list(ts))
+                        valid = [c for c in R if (tq, ts) in moves(c, a)]
+                        try:
+                            r = Interp(ctx, classes={'PDAState': lambda q, stack: Obj('PDAState', q=q, stack=list(stack))}).call(f, [P, R, a, target])
+                        except Raised as ex:
+                            bad = 'for the candidates {}, the symbol {} and the target ({}, {}) the function raises {}'.format([(c._f['q'], c._f['stack']) for c in R], a, tq, ts, ex.name)
+                            break
+                        runs += 1
+                        desc = 'for the candidates {}, the symbol {} and the target ({}, {})'.format([(c._f['q'], c._f['stack']) for c in R], a, tq, ts)
+                        if r is None:
+                            if valid:
+                                bad = '{} no predecessor is returned although ({}, {}) has a move to the target: the trace of an accepted word cannot be produced'.format(desc, valid[0]._f['q'], valid[0]._f['stack'])
+                        elif not isinstance(r, Obj) or r._cls != 'PDAState':
+                            raise Unsupported('result is not a configuration')
+                        elif not any(r == c for c in valid):
+                            bad = '{} the configuration ({}, {}) is returned, from which no {}-move of the automaton leads to the target (the whole target configuration, state and complete stack, must be reached): the trace contains a step that is no transition'.format(desc, r._f['q'], r._f['stack'], a)
+                        if bad:
+                            break
+                    if bad:
+                        break
+                if bad:
+                    break
+            if bad:
+                break
+    except Unsupported as e:
+        rep.note('{}: finite-model evaluation not applicable ({}); syntactic rule used'.format(f.short, e))
+        return _check_find_transition_syntactic(ctx, rep, f, rule)
+    if bad:
+        rep.violates(rule, f, 'def ' + f.name, bad)
+    else:
+        rep.holds(rule, f, 'def ' + f.name, 'on all {} cases of the finite model the returned configuration has a move to exactly the target configuration, and None is returned only when no candidate has one'.format(runs))
+    return 1
+
+
+def check_push_pop_model(ctx, rep, f, rule='R-MODEL.M5'):
+    """pda_to_push_pop_in_place, decided on a finite model with the analyser's evaluator: a PDA with one transition of each
+    kind (push, pop, no-op, replace, no-op on epsilon input, replace by the same symbol), for the epsilon symbols '' and '_'.
+    Required of the result: every transition pushes or pops (exactly one of the two stack symbols is epsilon); a push / pop
+    transition of the operand is still there; a no-op became "push a symbol that is new to Gamma, then pop it" and a replace
+    became "pop u, then push v", each through an intermediate state that is new to Q, used by this transition only and
+    registered in Q; nothing else was added.  The construction treats each transition on its own, by the kind of its two
+    stack symbols, so one transition per kind covers its case split.  Returns True when decided."""
+    from ..miniexec import Interp, Obj, Raised
+    bad = None
+    try:
+        for eps in ('', '_'):
+            trans = [('p', 'a', eps, 'q', 'X'), ('p', 'a', 'X', 'q', eps), ('p', 'b', eps, 'q', eps), ('p', 'b', 'X', 'q', 'Y'), ('q', eps, eps, 'p', eps), ('q', 'a', 'X', 'q', 'X'),
+                     ('M1', 'a', eps, 'q', eps)]
+            delta = {}
+            for (p, a, u0, q, v) in trans:
+                delta.setdefault((p, a, u0), set()).add((q, v))
+            Q0, G0 = {'p', 'q', 'M1'}, {'X', 'Y', '∅'}
+            P = Obj('PDA', Q=set(Q0), Sigma={'a', 'b'}, Gamma=set(G0), delta=delta, q0='p', F={'q'}, epsilon=eps)
+            try:
+                Interp(ctx, stubs={'pda_to_one_accepting_state_in_place': lambda it, a, k: None}).call(f, [P])
+            except Raised as ex:
+                bad = 'the construction raises {} on a PDA with one transition of each kind'.format(ex.name)
+                break
+            D = P._f['delta']
+            new = [(p, a, u0, q, v) for (p, a, u0), tg in D.items() for (q, v) in tg]
+            show = lambda t: '({}, {}, {}) -> ({}, {})'.format(t[0], t[1] or 'eps', t[2] or 'eps', t[3], t[4] or 'eps') if eps == '' else '({}, {}, {}) -> ({}, {})'.format(*t)
+            for t in new:
+                if (t[2] == eps) == (t[4] == eps):
+                    bad = 'the result contains the transition {}, which is neither a push nor a pop'.format(show(t))
+            mids_used = []
+            expected = 0
+            for t in trans:
+                p, a, u0, q, v = t
+                if bad:
+                    break
+                if (u0 == eps) != (v == eps):
+                    expected += 1
+                    if t not in new:
+                        bad = 'the push / pop transition {} of the operand is missing from the result'.format(show(t))
+                    continue
+                expected += 2
+                found = None
+                for (p1, a1, u1, m, x) in new:
+                    if (p1, a1) != (p, a) or m in Q0:
+                        continue
+                    for (m2, a2, y, q2, v2) in new:
+                        if m2 != m or a2 != eps or q2 != q:
+                            continue
+                        if u0 == eps:       # no-op: push a new symbol, pop it
+                            if u1 == eps and x != eps and x not in G0 and y == x and v2 == eps:
+                                found = m
+                        else:               # replace: pop u, push v
+                            if u1 == u0 and x == eps and y == eps and v2 == v:
+                                found = m
+                if found is None:
+                    bad = 'the transition {} of the operand is not simulated by two steps through a new intermediate state ({})'.format(show(t), 'push a symbol that is new to Gamma, then pop it' if u0 == eps else 'pop, then push')
+                else:
+                    mids_used.append(found)
+            if bad:
+                break
+            if len(set(mids_used)) != len(mids_used):
+                bad = 'two transitions of the operand are routed through the same intermediate state {}: the paths can be mixed, so the language changes'.format(sorted(m for m in mids_used if mids_used.count(m) > 1)[0])
+            elif not set(mids_used) <= P._f['Q']:
+                bad = 'an intermediate state is not added to Q'
+            elif len(new) != expected:
+                bad = 'the result has {} transitions where {} are expected (something else was added or dropped)'.format(len(new), expected)
+            elif not {x for (_, _, _, _, x) in new if x != eps} | {x for (_, _, x, _, _) in new if x != eps} <= P._f['Gamma']:
+                bad = 'a stack symbol used by the result is not in Gamma'
+            if bad:
+                break
+    except Unsupported as e:
+        rep.note('{}: finite-model evaluation not applicable ({})'.format(f.short, e))
+        return False
+    if bad:
+        rep.violates(rule, f, 'def ' + f.name, bad)
+    else:
+        rep.holds(rule, f, 'def ' + f.name, 'on the finite model (one transition of each kind, two epsilon symbols) the result is in push/pop form, keeps the push / pop transitions, and simulates every other transition by two steps through its own new intermediate state')
+    return True
